@@ -1,0 +1,9 @@
+//go:build !verif
+
+package taskctl
+
+// Verification hooks (see build tag "verif"); no-ops in normal builds.
+
+func verifInit(s *Scheduler)     {}
+func verifLoop(s *Scheduler)     {}
+func verifLoopExit(s *Scheduler) {}
